@@ -74,6 +74,7 @@ Definition xpc_eqb (a b : xpc) : bool :=
   | XIdle, XIdle | XSendChecked, XSendChecked | XAnnounced, XAnnounced | XExcl, XExcl | XDial, XDial | XBgDone, XBgDone | XBgNotSpawned, XBgNotSpawned => true
   | XSendHave x, XSendHave y | XSendWrite x, XSendWrite y | XDiscClosedQ x, XDiscClosedQ y | XDiscClose x, XDiscClose y
   | XBgStart x, XBgStart y | XBgListening x, XBgListening y | XBgReport x, XBgReport y => Nat.eqb x y
+  | XSetErr x, XSetErr y => Bool.eqb x y
   | _, _ => false
   end.
 Definition xlocal_eqb (a b : xlocal) : bool :=
